@@ -314,16 +314,23 @@ impl Write for PlainSink {
     }
 }
 
-fn reference_bytes(kind: Kind, cfg: &WriterCfg, recs: &[Rec]) -> Vec<u8> {
+/// What the writer produces into a sink that accepts everything. `Err` only if the writer itself
+/// refuses a valid record (the sink never fails).
+fn reference_bytes(kind: Kind, cfg: &WriterCfg, recs: &[Rec]) -> Result<Vec<u8>, crate::runner::Violation> {
     let buf = Rc::new(RefCell::new(Vec::new()));
-    produce(kind, cfg, recs, PlainSink(buf.clone())).expect("plain sink cannot fail");
+    if let Err(e) = produce(kind, cfg, recs, PlainSink(buf.clone())) {
+        return fail(
+            "C11.a-sink",
+            format!("writer returned an error for a valid record list although its sink accepts every byte: {:?} ({})", e.kind(), e),
+        );
+    }
     let v = buf.borrow().clone();
-    v
+    Ok(v)
 }
 
 /// Run the producer side. Returns the bytes that reached the simulated sink.
 fn producer_phase(w: &W, kind: Kind, recs: &[Rec], wcfg: &WriterCfg, iocfg: IoCfg) -> Result<Vec<u8>, crate::runner::Violation> {
-    let reference = reference_bytes(kind, wcfg, recs);
+    let reference = reference_bytes(kind, wcfg, recs)?;
     w.set_budget(8 * reference.len() as u64 + 1000);
     let sink = SimWrite::new(w, iocfg, "sink");
     let bytes = sink.sink.clone();
@@ -557,7 +564,8 @@ pub struct Parsed {
     /// (item index, is EINTR, text)
     pub errs: Vec<(usize, bool, String)>,
     pub items: usize,
-    pub kind_reported: Option<Result<Kind, String>>,
+    /// Err((is ErrorKind::Interrupted, text))
+    pub kind_reported: Option<Result<Kind, (bool, String)>>,
     /// FASTQ only: check() verdict per Ok record
     pub checks: Vec<bool>,
     pub ended: bool,
@@ -729,7 +737,7 @@ fn consume_either<B: BufRead>(mut it: fastx::EitherRecords<B>, ask_kind: bool, m
         p.kind_reported = Some(match it.kind() {
             Ok(fastx::Kind::FASTA) => Ok(Kind::Fasta),
             Ok(fastx::Kind::FASTQ) => Ok(Kind::Fastq),
-            Err(e) => Err(e.to_string()),
+            Err(e) => Err((is_eintr_io(&e), e.to_string())),
         });
     }
     for item in &mut it {
@@ -781,6 +789,8 @@ struct ReaderCfg {
     api: Api,
     ask_kind: bool,
     io: IoCfg,
+    /// get_kind_seek variant: never put a junk prefix in front of the stream (partition sweeps)
+    no_prefix: bool,
 }
 
 fn gen_reader_cfg(w: &World, allow_sniff: bool, allow_eintr: bool, magic: Option<usize>) -> ReaderCfg {
@@ -811,6 +821,7 @@ fn gen_reader_cfg(w: &World, allow_sniff: bool, allow_eintr: bool, magic: Option
         api,
         ask_kind,
         io,
+        no_prefix: false,
     }
 }
 
@@ -907,7 +918,7 @@ fn consumer_phase(w: &W, kind: Kind, data: &Rc<Vec<u8>>, rc: &ReaderCfg) -> (Par
                     }
                 }
                 Err(e) => {
-                    p.kind_reported = Some(Err(e.to_string()));
+                    p.kind_reported = Some(Err((is_eintr_io(&e), e.to_string())));
                     p.errs.push((0, is_eintr_io(&e), e.to_string()));
                     p.ended = true;
                 }
@@ -916,7 +927,7 @@ fn consumer_phase(w: &W, kind: Kind, data: &Rc<Vec<u8>>, rc: &ReaderCfg) -> (Par
         _ => {
             // the stream may be positioned behind some unrelated prefix: get_kind_seek must look at
             // the current position and leave the stream there
-            let prefix_len = if w.chance(1, 3) { 1 + w.draw(5) as usize } else { 0 };
+            let prefix_len = if !rc.no_prefix && w.chance(1, 3) { 1 + w.draw(5) as usize } else { 0 };
             let mut src = if prefix_len > 0 {
                 let mut d: Vec<u8> = (0..prefix_len).map(|_| *w.pick(b"#x>@\n ")).collect();
                 d.extend_from_slice(data);
@@ -945,7 +956,7 @@ fn consumer_phase(w: &W, kind: Kind, data: &Rc<Vec<u8>>, rc: &ReaderCfg) -> (Par
                     }
                 }
                 Err(e) => {
-                    p.kind_reported = Some(Err(e.to_string()));
+                    p.kind_reported = Some(Err((is_eintr_io(&e), e.to_string())));
                     p.errs.push((0, is_eintr_io(&e), e.to_string()));
                     p.ended = true;
                 }
@@ -1006,21 +1017,25 @@ fn check_roundtrip(w: &World, clause: &'static str, p: &Parsed, expected: &[Rec]
             format!("iterator yielded {} items for a file of {} records without ending", p.items, expected.len()),
         );
     }
-    let only_eintr = !p.errs.is_empty() && p.errs.iter().all(|e| e.1);
     if !p.errs.is_empty() {
-        if eintr_on && only_eintr && w.eintr_total.get() > 0 {
-            // legal: the reader surfaced Interrupted. Everything before must be a correct prefix.
-            if p.recs.len() <= expected.len() && p.recs[..] == expected[..p.recs.len()] {
+        let first = &p.errs[0];
+        if eintr_on && first.1 && w.eintr_total.get() > 0 {
+            // Legal: the reader surfaced Interrupted. Only what was yielded *before* that first
+            // error is judged (a consumer that keeps pulling after an error is on its own): it must
+            // be a correct prefix. Descriptions are compared modulo known finding K1.
+            let n = first.0.min(p.recs.len());
+            let before = &p.recs[..n];
+            if n <= expected.len() && (before == &expected[..n] || only_description_whitespace_differs(before, &expected[..n]).is_some()) {
                 return Ok(());
             }
-            return fail(clause, format!("after a surfaced EINTR the records read are not a prefix of those written: {}", first_diff(&p.recs, expected)));
+            return fail(clause, format!("after a surfaced EINTR the records read before it are not a prefix of those written: {}", first_diff(before, expected)));
         }
         return fail(
             clause,
             format!(
                 "reader reported an error on a well-formed file: item {} = {:?}; {} records had been read",
-                p.errs[0].0,
-                p.errs[0].2,
+                first.0,
+                first.2,
                 p.recs.len()
             ),
         );
@@ -1204,15 +1219,12 @@ fn roundtrip(w: &W, kind: Kind, with_cut: bool) -> Verdict {
                     // not asked and no Ok item: nothing was reported; the record comparison decides
                     None => {}
                     Some(Ok(k)) if *k == kind => {}
-                    Some(Err(e)) if eintr_on && w.eintr_total.get() > 0 && e.contains("EINTR") => return Ok(()),
+                    Some(Err((true, _))) if eintr_on && w.eintr_total.get() > 0 => return Ok(()),
                     other => {
                         return fail("C11.c-sniff", format!("wrote {:?}, sniffer reported {:?}", kind, other));
                     }
                 }
-                let v = check_roundtrip(w, "C11.c-sniff", &p, &recs, eintr_on);
-                // keep the clause of the storage variant visible too
-                w.clause(clause);
-                v
+                check_roundtrip(w, "C11.c-sniff", &p, &recs, eintr_on)
             } else {
                 check_roundtrip(w, clause, &p, &recs, eintr_on)
             }
@@ -1239,7 +1251,7 @@ fn judge_cut(w: &World, kind: Kind, recs: &[Rec], boundaries: &[usize], c: usize
             match &p.kind_reported {
                 None => {}
                 Some(Ok(k)) if *k == kind => {}
-                Some(Err(e)) if eintr_on && w.eintr_total.get() > 0 && e.contains("EINTR") => return Ok(()),
+                Some(Err((true, _))) if eintr_on && w.eintr_total.get() > 0 => return Ok(()),
                 other => return fail("C11.c-sniff", format!("wrote {:?}, sniffer reported {:?}", kind, other)),
             }
         }
@@ -1367,6 +1379,7 @@ fn partitions(w: &W) -> Verdict {
         w.fired("crlf");
     }
     let mut rc = gen_reader_cfg(w, true, false, None);
+    rc.no_prefix = true;
     if rc.cap < 64 && rc.ctor != 2 && rc.ctor != 4 {
         // a BufReader smaller than the file would hide most partitions behind its own refills;
         // the small capacities have their own scenarios
@@ -1412,7 +1425,7 @@ fn partitions(w: &W) -> Verdict {
         flush: w.chance(1, 2),
         flush_each: w.chance(1, 4),
     };
-    let out_len = reference_bytes(kind, &wcfg, &recs).len();
+    let out_len = reference_bytes(kind, &wcfg, &recs)?.len();
     if out_len >= 2 && out_len <= limit + 4 {
         w.fired("all_write_partitions");
         for mask in 0..(1u64 << (out_len - 1)) {
